@@ -603,4 +603,390 @@ Section Proofs.
     rewrite andb_false_r. now rewrite vals_filter.
   Qed.
 
+  (* ================= operands ================= *)
+  Notation omap := (omap key keqb ieqb valid).
+  Notation coerce := (coerce key keqb ieqb valid).
+  Notation oitems := (@op_items item K key keqb).
+  Notation kv_contains := (kv_contains key keqb ieqb as_key as_item key_of_key).
+  Notation subset := (subset key keqb ieqb).
+
+  Definition like (p : @operand item) : bool :=
+    match p with PKS _ _ => false | _ => true end.
+
+  Lemma coerce_omap enf d p :
+    coerce enf d p = match omap enf d p with
+                     | Err e => Err e
+                     | Ok (eb, b) => Ok (KV eb b (like p))
+                     end.
+  Proof.
+    destruct p; simpl; auto; rewrite from_iterable_fresh; destruct (fresh enf xs); auto.
+  Qed.
+
+  Lemma omap_inv enf d p eb b : Inv d -> TInv d -> omap enf d p = Ok (eb, b) -> Inv b.
+  Proof.
+    intros I T. destruct p; simpl.
+    - intro H. inversion H. apply inv_the_map.
+    - destruct (fresh enf xs) eqn:F; [|discriminate]. intro H. inversion H; subst.
+      apply fresh_ok in F. tauto.
+    - destruct (fresh enf xs) eqn:F; [|discriminate]. intro H. inversion H; subst.
+      apply fresh_ok in F. tauto.
+    - intro H. inversion H; subst. exact I.
+  Qed.
+
+  Lemma filter_ext_in' {A} (f g : A -> bool) l :
+    (forall x, In x l -> f x = g x) -> filter f l = filter g l.
+  Proof.
+    induction l as [|a l IH]; simpl; intro H; auto.
+    rewrite (H a) by auto. rewrite IH by auto. reflexivity.
+  Qed.
+
+  Lemma forallb_ext' {A} (f g : A -> bool) l :
+    (forall x, In x l -> f x = g x) -> forallb f l = forallb g l.
+  Proof.
+    induction l as [|a l IH]; simpl; intro H; auto.
+    rewrite (H a) by auto. rewrite IH by auto. reflexivity.
+  Qed.
+
+  Lemma member_has e b x : member e b (AItem x) = true -> In (key x) (keys b).
+  Proof.
+    unfold Spec.member. destruct (lookup (key x) b) eqn:L; [|discriminate].
+    intros _. apply lookup_In in L. apply in_map_iff. exists (key x, i); auto.
+  Qed.
+
+  Lemma subset_length e a b : Inv a -> subset e a b = true -> (length a <= length b)%nat.
+  Proof.
+    intros I S. unfold Spec.subset in S. rewrite forallb_forall in S.
+    pose proof (inv_vals_nodup a I) as N.
+    assert (L : incl (map key (vals a)) (keys b)).
+    { intros k Hk. apply in_map_iff in Hk. destruct Hk as [x [<- Hx]].
+      eapply member_has. apply S. exact Hx. }
+    pose proof (NoDup_incl_length N L) as Le.
+    unfold vals in Le. rewrite !map_length in Le. exact Le.
+  Qed.
+
+  Lemma le_body_spec d eb b t : Inv d -> Inv b ->
+    le_body key keqb ieqb as_key as_item key_of_key d (KV eb b t) = subset eb d b.
+  Proof.
+    intros I Ib. unfold le_body. simpl.
+    assert (E : forallb (kv_contains (KV eb b t)) (vals d) = subset eb d b).
+    { unfold Spec.subset. apply forallb_ext'. intros x _. simpl. now apply contains_member. }
+    rewrite E. destruct (zlen d >? zlen b) eqn:Z; auto.
+    destruct (subset eb d b) eqn:S; auto.
+    apply subset_length in S; auto. unfold zlen in Z. lia.
+  Qed.
+
+  Lemma ge_body_spec enf d eb b t : Inv d -> Inv b ->
+    ge_body key keqb ieqb as_key as_item key_of_key enf d (KV eb b t) = subset enf b d.
+  Proof.
+    intros I Ib. unfold ge_body. simpl.
+    assert (E : forallb (fun x => contains enf d (AItem x)) (vals b) = subset enf b d).
+    { unfold Spec.subset. apply forallb_ext'. intros x _. now apply contains_member. }
+    rewrite E. destruct (zlen d <? zlen b) eqn:Z; auto.
+    destruct (subset enf b d) eqn:S; auto.
+    apply subset_length in S; auto. unfold zlen in Z. lia.
+  Qed.
+
+  Lemma compare_spec enf d p f g : Inv d -> TInv d ->
+    (forall eb b t, Inv b -> f (KV eb b t) = g eb b) ->
+    compare key keqb ieqb valid enf d p f = spec_cmp key keqb ieqb valid enf d p g.
+  Proof.
+    intros I T H. unfold compare, spec_cmp. rewrite coerce_omap.
+    destruct p; auto; destruct (omap enf d _) as [[eb' b']|e'] eqn:O; auto;
+      rewrite (H eb' b' _ (omap_inv _ _ _ _ _ I T O)); reflexivity.
+  Qed.
+
+  (* ================= binary operators ================= *)
+  Notation spec_sub := (spec_sub key keqb ieqb valid).
+  Notation spec_rsub := (spec_rsub key keqb ieqb valid).
+  Notation spec_xor := (spec_xor key keqb ieqb valid).
+  Notation set_sub := (set_sub key keqb ieqb valid as_key as_item key_of_key).
+  Notation set_rsub := (set_rsub key keqb ieqb valid as_key as_item key_of_key).
+  Notation set_xor := (set_xor key keqb ieqb valid as_key as_item key_of_key).
+  Notation set_and := (set_and key keqb ieqb valid as_key as_item key_of_key).
+
+  Lemma set_and_spec enf d p : Inv d ->
+    set_and enf d p = fresh enf (filter (fun x => member enf d (AItem x)) (oitems d p)).
+  Proof.
+    intro I. unfold Model.set_and. rewrite from_iterable_fresh. f_equal.
+    apply filter_ext_in'. intros x _. now apply contains_member.
+  Qed.
+
+  Lemma set_or_spec enf d p :
+    set_or key keqb ieqb valid enf d p = fresh enf (vals d ++ oitems d p).
+  Proof. unfold set_or. apply from_iterable_fresh. Qed.
+
+  Lemma set_sub_spec enf d p : Inv d -> TInv d -> set_sub enf d p = spec_sub enf d p.
+  Proof.
+    intros I T. unfold Model.set_sub, Spec.spec_sub. rewrite coerce_omap.
+    destruct (omap enf d p) as [[eb b]|e] eqn:O; auto.
+    pose proof (omap_inv _ _ _ _ _ I T O) as Ib.
+    rewrite from_iterable_fresh.
+    rewrite (filter_ext_in' _ (fun x => negb (member eb b (AItem x)))).
+    - now apply fresh_submap.
+    - intros x _. simpl. f_equal. now apply contains_member.
+  Qed.
+
+  Lemma set_rsub_spec enf d p : Inv d -> set_rsub enf d p = spec_rsub enf d p.
+  Proof.
+    intro I. unfold Model.set_rsub, Spec.spec_rsub.
+    assert (E : forall its,
+      from_iterable enf (filter (fun x => negb (contains enf d (AItem x))) its) =
+      fresh enf (filter (fun x => negb (member enf d (AItem x))) its)).
+    { intro its. rewrite from_iterable_fresh. f_equal. apply filter_ext_in'.
+      intros x _. f_equal. now apply contains_member. }
+    destruct p; auto. rewrite from_iterable_fresh. destruct (fresh enf xs); auto.
+  Qed.
+
+  Lemma set_xor_spec enf d p : Inv d -> TInv d -> set_xor enf d p = spec_xor enf d p.
+  Proof.
+    intros I T. unfold Model.set_xor, Spec.spec_xor. rewrite set_sub_spec by auto.
+    destruct (spec_sub enf d p) as [a|e]; auto.
+    assert (E : other_minus_self key keqb ieqb valid as_key as_item key_of_key enf d p =
+                match p with
+                | PKS _ xs => Ok (filter (fun e => negb (member enf d (AItem (snd e)))) (the_map xs))
+                | _ => spec_rsub enf d p
+                end).
+    { unfold other_minus_self. destruct p; try (now apply set_rsub_spec).
+      rewrite (filter_ext_in' _ (fun x => negb (member enf d (AItem x)))).
+      - apply construct_plain_submap. apply inv_the_map.
+      - intros x _. f_equal. now apply contains_member. }
+    rewrite E. destruct (match p with PKS _ xs => _ | _ => _ end); auto.
+    apply from_iterable_fresh.
+  Qed.
+
+  (* what the operators return is again a coherent, well-typed container *)
+  Lemma spec_sub_ok enf d p r : Inv d -> TInv d -> spec_sub enf d p = Ok r -> Inv r /\ TInv r.
+  Proof.
+    intros I T. unfold Spec.spec_sub. destruct (omap enf d p) as [[eb b]|]; [|discriminate].
+    intro H. inversion H; subst. split; [now apply inv_filter|now apply tinv_filter].
+  Qed.
+
+  Lemma spec_rsub_ok enf d p r : spec_rsub enf d p = Ok r -> Inv r /\ TInv r.
+  Proof.
+    unfold Spec.spec_rsub. destruct (match p with PList xs => _ | _ => _ end); [|discriminate].
+    intro H. apply fresh_ok in H. tauto.
+  Qed.
+
+  Lemma spec_xor_ok enf d p r : spec_xor enf d p = Ok r -> Inv r /\ TInv r.
+  Proof.
+    unfold Spec.spec_xor. destruct (spec_sub enf d p); [|discriminate].
+    destruct (match p with PKS _ xs => _ | _ => _ end); [|discriminate].
+    intro H. apply fresh_ok in H. tauto.
+  Qed.
+
+  (* ================= in-place operators ================= *)
+  Notation matches := (matches key keqb ieqb).
+  Notation discard_all := (discard_all key keqb ieqb as_key as_item key_of_key).
+
+  Lemma filter_filter {A} (f g : A -> bool) l :
+    filter g (filter f l) = filter (fun x => f x && g x) l.
+  Proof.
+    induction l as [|a l IH]; simpl; auto.
+    destruct (f a); simpl; [destruct (g a)|]; simpl; congruence.
+  Qed.
+
+  Lemma filter_none {A} (f : A -> bool) l : (forall x, In x l -> f x = false) -> filter f l = [].
+  Proof.
+    induction l as [|a l IH]; simpl; intro H; auto. rewrite H by auto. apply IH. auto.
+  Qed.
+
+  (* discarding one item removes the entries it matches *)
+  Lemma discard_item_filter enf d x : Inv d ->
+    discard enf d (AItem x) = filter (fun e => negb (matches enf x e)) d.
+  Proof.
+    intro I. rewrite discard_spec by auto. simpl.
+    assert (U : forall e, In e d -> keqb (key x) (fst e) = true ->
+                lookup (key x) d = Some (snd e)).
+    { intros [j z] He E. simpl in *. apply keqb_eq in E. subst j. apply In_lookup; auto. apply I. }
+    destruct (lookup (key x) d) as [y|] eqn:L.
+    - destruct (negb enf || ieqb x y) eqn:C.
+      + unfold dict_del. apply filter_ext_in'. intros e He. unfold Spec.matches.
+        destruct (keqb (key x) (fst e)) eqn:E; auto.
+        specialize (U e He E). inversion U; subst. now rewrite C.
+      + symmetry. apply filter_all. intros e He. unfold Spec.matches.
+        destruct (keqb (key x) (fst e)) eqn:E; auto.
+        specialize (U e He E). inversion U; subst. now rewrite C.
+    - symmetry. apply filter_all. intros e He. unfold Spec.matches.
+      destruct (keqb (key x) (fst e)) eqn:E; auto.
+      specialize (U e He E). discriminate.
+  Qed.
+
+  Lemma discard_all_filter enf xs : forall d, Inv d ->
+    discard_all enf d xs = filter (fun e => negb (existsb (fun x => matches enf x e) xs)) d.
+  Proof.
+    induction xs as [|x xs IH]; intros d I.
+    - simpl. symmetry. now apply filter_all.
+    - unfold Model.discard_all in *. simpl. rewrite discard_item_filter by auto.
+      rewrite IH by (now apply inv_filter). rewrite filter_filter.
+      apply filter_ext_in'. intros e _. now rewrite negb_orb.
+  Qed.
+
+  Lemma matches_own enf d e : Inv d -> In e d -> matches enf (snd e) e = true.
+  Proof.
+    intros I He. destruct e as [k y]. unfold Spec.matches. simpl.
+    rewrite <- (inv_key d k y I He), keqb_refl, ieqb_refl. now rewrite orb_true_r.
+  Qed.
+
+  (* an own item matches no other entry *)
+  Lemma matches_unique enf d x e : Inv d -> In x (vals d) -> In e d ->
+    matches enf x e = true -> x = snd e.
+  Proof.
+    intros I Hx He M. unfold Spec.matches in M. apply andb_true_iff in M. destruct M as [M _].
+    apply keqb_eq in M. destruct e as [k y]. simpl in *. subst k.
+    pose proof (inv_lookup_own d x I Hx) as L.
+    rewrite (In_lookup _ _ _ (proj1 I) He) in L. congruence.
+  Qed.
+
+  (* discarding the values of a sub-map leaves the complementary sub-map *)
+  Lemma discard_all_submap enf f d : Inv d ->
+    discard_all enf d (vals (filter f d)) = filter (fun e => negb (f e)) d.
+  Proof.
+    intro I. rewrite discard_all_filter by auto. apply filter_ext_in'. intros e He. f_equal.
+    apply bool_iff. rewrite existsb_exists. split.
+    - intros [x [Hx M]]. apply in_map_iff in Hx. destruct Hx as [e' [<- He']].
+      apply filter_In in He'. destruct He' as [He' Fe'].
+      assert (snd e' = snd e).
+      { eapply matches_unique; eauto. apply in_map_iff. exists e'; auto. }
+      assert (e' = e); [|now subst].
+      destruct e as [k y], e' as [k' y']. simpl in *. subst y'.
+      rewrite (inv_key d k y I He), (inv_key d k' y I He'). reflexivity.
+    - intro Fe. exists (snd e). split.
+      + apply in_map_iff. exists e. split; auto. apply filter_In. auto.
+      + eapply matches_own; eauto.
+  Qed.
+
+  (* ---- |= : staging, then one update, is adding one by one, all or nothing ---- *)
+  Lemma has_put i j z d : has i (put j z d) = has i d || keqb i j.
+  Proof.
+    rewrite !has_lookup, lookup_put. destruct (keqb i j); [now rewrite orb_true_r|].
+    now rewrite orb_false_r.
+  Qed.
+
+  Lemma lookup_update st : forall d k, NoDup (keys st) ->
+    lookup k (update d st) = match lookup k st with Some y => Some y | None => lookup k d end.
+  Proof.
+    unfold dict_update. induction st as [|[j z] st IH]; intros d k N; simpl; auto.
+    inversion N; subst. rewrite IH by auto. unfold dict_get at 3. simpl.
+    destruct (keqb k j) eqn:E.
+    - apply keqb_eq in E. subst j. simpl.
+      assert (lookup k st = None) as -> by (now apply lookup_None).
+      apply lookup_put_same.
+    - fold (lookup k st). destruct (lookup k st); auto.
+      apply lookup_put_other. apply keqb_neq in E. auto.
+  Qed.
+
+  Lemma keys_update st : forall d, NoDup (keys st) ->
+    keys (update d st) = keys d ++ filter (fun j => negb (has j d)) (keys st).
+  Proof.
+    unfold dict_update. induction st as [|[j z] st IH]; intros d N; simpl.
+    - now rewrite app_nil_r.
+    - inversion N; subst. rewrite IH by auto. rewrite keys_put.
+      assert (E : filter (fun i => negb (has i (put j z d))) (keys st) =
+                  filter (fun i => negb (has i d)) (keys st)).
+      { apply filter_ext_in'. intros i Hi. rewrite has_put.
+        assert (keqb i j = false) as ->; [|now rewrite orb_false_r].
+        apply keqb_neq. intro; subst; contradiction. }
+      rewrite E. destruct (has j d); simpl; auto. now rewrite <- app_assoc.
+  Qed.
+
+  Lemma NoDup_keys_update st : forall d, NoDup (keys d) -> NoDup (keys (update d st)).
+  Proof.
+    unfold dict_update. induction st as [|[j z] st IH]; intros d N; simpl; auto.
+    apply IH. now apply NoDup_keys_put.
+  Qed.
+
+  Lemma inv_update st : forall d, Inv d -> Inv st -> Inv (update d st).
+  Proof.
+    unfold dict_update. induction st as [|[j z] st IH]; intros d I Is; simpl; auto.
+    apply IH; [|eapply inv_tail; eauto].
+    rewrite (inv_key _ j z Is (or_introl eq_refl)). now apply inv_put.
+  Qed.
+
+  Lemma tinv_update st : forall d, TInv d -> TInv st -> TInv (update d st).
+  Proof.
+    unfold dict_update. induction st as [|[j z] st IH]; intros d T Ts; simpl; auto.
+    unfold TInv in Ts. simpl in Ts. apply andb_true_iff in Ts. destruct Ts as [V Ts].
+    apply IH; auto. now apply tinv_put.
+  Qed.
+
+  Lemma update_put d st k x : NoDup (keys d) -> NoDup (keys st) ->
+    update d (put k x st) = put k x (update d st).
+  Proof.
+    intros Nd Ns. apply dict_ext.
+    - rewrite keys_update by (now apply NoDup_keys_put). rewrite !keys_put.
+      rewrite (has_lookup k (update d st)), lookup_update by auto.
+      rewrite (has_lookup k st). destruct (lookup k st) eqn:L.
+      + now rewrite keys_update.
+      + rewrite filter_app, keys_update by auto. simpl. rewrite (has_lookup k d).
+        destruct (lookup k d); simpl; [now rewrite app_nil_r|now rewrite app_assoc].
+    - intro j. rewrite lookup_update by (now apply NoDup_keys_put).
+      rewrite !lookup_put, lookup_update by auto. destruct (keqb j k); reflexivity.
+    - apply NoDup_keys_update; auto.
+  Qed.
+
+  Notation ior_stage := (ior_stage key keqb ieqb valid).
+  Notation add_all := (add_all key keqb ieqb valid).
+  Notation spec_add := (spec_add key keqb ieqb valid).
+
+  Lemma ior_stage_spec enf d xs : Inv d -> forall st, Inv st ->
+    (enf = true -> forall j ys yd, lookup j st = Some ys -> lookup j d = Some yd -> yd = ys) ->
+    match ior_stage enf d xs st with
+    | Err e => add_all enf (update d st) xs = Err e
+    | Ok st' => add_all enf (update d st) xs = Ok (update d st')
+    end.
+  Proof.
+    intro I. induction xs as [|x xs IH]; intros st Is Ag; simpl; auto.
+    unfold Spec.spec_add. destruct (valid x); auto.
+    rewrite lookup_update by apply Is. unfold clashes.
+    assert (Step : forall (Hok : enf = true ->
+                      (forall yd, lookup (key x) d = Some yd -> yd = x) /\
+                      (forall ys, lookup (key x) st = Some ys -> ys = x)),
+              match ior_stage enf d xs (put (key x) x st) with
+              | Err e => add_all enf (put (key x) x (update d st)) xs = Err e
+              | Ok st' => add_all enf (put (key x) x (update d st)) xs = Ok (update d st')
+              end).
+    { intro Hok. rewrite <- update_put by (apply I || apply Is). apply IH.
+      - now apply inv_put.
+      - intros En j ys yd. rewrite lookup_put. destruct (keqb j (key x)) eqn:E.
+        + apply keqb_eq in E. subst j. intros H1 H2. assert (Ey : ys = x) by congruence.
+          rewrite Ey. now apply (proj1 (Hok En)).
+        + now apply Ag. }
+    destruct enf; simpl.
+    - destruct (lookup (key x) st) as [ys|] eqn:Ls.
+      + destruct (lookup (key x) d) as [yd|] eqn:Ld.
+        * rewrite <- (Ag eq_refl _ _ _ Ls Ld).
+          destruct (ieqb yd x) eqn:E; simpl; auto.
+          apply ieqb_eq in E. subst yd. apply Step. intros _. split.
+          -- intros y H. congruence.
+          -- intros y H. pose proof (Ag eq_refl _ _ _ Ls Ld). congruence.
+        * simpl. destruct (ieqb ys x) eqn:E; simpl; auto.
+          apply ieqb_eq in E. subst ys. apply Step. intros _. split; intros y H; congruence.
+      + destruct (lookup (key x) d) as [yd|] eqn:Ld.
+        * rewrite orb_false_r. destruct (ieqb yd x) eqn:E; simpl; auto.
+          apply ieqb_eq in E. subst yd. apply Step. intros _. split; intros y H; congruence.
+        * simpl. apply Step. intros _. split; intros y H; congruence.
+    - assert (S := Step (fun H => False_ind _ (Bool.diff_false_true H))).
+      destruct (lookup (key x) st); [|destruct (lookup (key x) d)]; exact S.
+  Qed.
+
+  Lemma add_all_ok enf xs : forall m m', Inv m -> TInv m ->
+    add_all enf m xs = Ok m' -> Inv m' /\ TInv m'.
+  Proof.
+    induction xs as [|x xs IH]; intros m m' I T; simpl.
+    - intro H. inversion H; subst. auto.
+    - unfold Spec.spec_add. destruct (valid x) eqn:V; [|discriminate].
+      assert (I' : Inv (put (key x) x m)) by (now apply inv_put).
+      assert (T' : TInv (put (key x) x m)) by (now apply tinv_put).
+      destruct (lookup (key x) m); [destruct (enf && negb (ieqb i x)); [discriminate|]|];
+        now apply IH.
+  Qed.
+
+  Lemma update_nil r : NoDup (keys r) -> update [] r = r.
+  Proof.
+    intro N. apply dict_ext.
+    - rewrite keys_update by auto. simpl. apply filter_all. reflexivity.
+    - intro k. rewrite lookup_update by auto. destruct (lookup k r); reflexivity.
+    - apply NoDup_keys_update. constructor.
+  Qed.
+
 End Proofs.
